@@ -38,11 +38,28 @@ def elem_text(e):
     return s
 
 
+def elem_symbol(e):
+    """name of the grammar symbol an element denotes (documented helper names)"""
+    if not e["op"]:
+        return e["sym"]
+    if e["op"] == "?":
+        return e["sym"] + "_opt"
+    return "%s_%s%s" % (e["sym"], "1" if e["op"] == "+" else "0", "_" + e["sep"] if e.get("sep") else "")
+
+
 def grammar_text(case):
     lines = []
+    tail = []
     for r in case["rules"]:
         alts = [" ".join(elem_text(e) for e in alt) if alt else "EMPTY" for alt in r["alts"]]
-        lines.append("%s: %s;" % (r["name"], " | ".join(alts)))
+        k = r.get("split", 0)
+        if k and 0 < k < len(alts):
+            # the rule is defined in two places (parglare merges the definitions in order)
+            lines.append("%s: %s;" % (r["name"], " | ".join(alts[:k])))
+            tail.append("%s: %s;" % (r["name"], " | ".join(alts[k:])))
+        else:
+            lines.append("%s: %s;" % (r["name"], " | ".join(alts)))
+    lines.extend(tail)
     lines.append("terminals")
     for t in case["terms"]:
         lines.append("%s: '%s';" % (t, t))
@@ -130,7 +147,15 @@ def ref_eval(node, case, helpers, with_actions):
                 return tuple(sub[0]) if kids else ()
             return sub[0] if kids else None
         r = rules[name]
+        # which alternative was applied: decided from the children's symbols, independently of
+        # parglare's own numbering (which only breaks ties between alternatives with equal symbols)
+        kid_syms = [k.symbol.name for k in kids]
+        cands = [i for i, alt in enumerate(r["alts"]) if [elem_symbol(e) for e in alt] == kid_syms]
         idx = n.production.prod_symbol_id
+        if len(cands) == 1:
+            idx = cands[0]
+        elif idx not in cands:
+            raise AssertionError("no alternative of %s matches children %s" % (name, kid_syms))
         elems = alt_elems(name, idx)
         named = [(i, e) for i, e in enumerate(elems) if e.get("name")]
         has_named_rule = any(e.get("name") for alt in r["alts"] for e in alt)
@@ -271,7 +296,15 @@ def cases(draw):
                     e["bool"] = draw(st.booleans())
                 alt.append(e)
             alts.append(alt)
-        rules.append({"name": n, "alts": alts, "action": draw(st.sampled_from(["none", "one", "list", "list"]))})
+        split = draw(st.integers(0, 2)) if len(alts) >= 2 and draw(st.integers(0, 2)) == 0 else 0
+        if split:
+            # a rule defined in two places: which definition decides about the default obj action of
+            # named matches is not documented, so split rules carry no named matches
+            for alt in alts:
+                for e in alt:
+                    e["name"] = None
+        rules.append({"name": n, "alts": alts, "action": draw(st.sampled_from(["none", "one", "list", "list"])),
+                      "split": split})
     term_actions = [t for t in terms if draw(st.booleans())]
     return {"rules": rules, "terms": terms, "term_actions": term_actions,
             "max_len": 5 if len(terms) <= 2 else 4}
